@@ -32,6 +32,13 @@ Decided:
          attributes and module-level names; a default-argument expression, a class attribute, a module-level value, a
          module / class variable filled lazily or a memoised factory is evaluated once per process, so that every middleware
          built without a key would sign with the same key (a cookie of one is "server-signed" for all others).
+  R16.h  what the application stored is written back: should_save (what save_cookie consults), looked up along the MRO of
+         JSONCookie, is the dependency's (= modified) or an override that narrows it only by comparing the contents with a
+         snapshot that shares no mutable object with the live cookie (deepcopy / a serialised form; a shallow copy or an alias
+         is a violation: in-place changes of nested values followed by re-assignment go unnoticed and are never sent); a
+         constructor override hands data / secret_key / new to the dependency unchanged on every path and stores nothing into
+         the cookie; any other member of the dependency's load / save machinery that the class or a mixin replaces is an
+         analysis gap.
 Declined: cryptographic strength, JSON round-trip fidelity, clock behaviour around the expiry instant.
 
 Constructs are recognised by role, not by spelling: values are followed through single-assignment locals and
@@ -82,7 +89,8 @@ def run(rep):
     rep.decide('R16.a malformed cookies cannot raise out of the load; R16.b unquote total, quote total on what unquote returns, '
                'codec agreement; R16.c MAC dominates use; R16.d key plumbing, provide-under-name, save on every path; '
                'R16.e nothing request() learns from one request is written into an object shared with the next; '
-               'R16.f the random default key is drawn per constructed middleware')
+               'R16.f the random default key is drawn per constructed middleware; R16.h a modified cookie is written back '
+               '(should_save / constructor overrides)')
     rep.decline('cryptographic strength; JSON round-trip fidelity; clock behaviour at the expiry instant')
     rep.assume('binascii.Error and UnicodeDecodeError are ValueError subclasses (CPython)')
     rep.assume('json.loads returns str values with unpaired surrogates for escapes such as "\\ud83d"; json.dumps emits ASCII only '
@@ -94,7 +102,7 @@ def run(rep):
         raise
     except Exception as e:
         raise AnalysisError('cookie module: anchors not recognised (%s: %s)' % (type(e).__name__, e))
-    for group in (rule_a, rule_b, rule_c, rule_d, rule_e):
+    for group in (rule_a, rule_b, rule_c, rule_d, rule_e, rule_h):
         rep.guard(_no_crash(group), rep, cx)
 
 
@@ -1459,3 +1467,224 @@ def _shared_name(act, obj, node):
         if src:
             return '%s (= %s, not a copy)' % (txt, ' / '.join(sorted(set(src))))
     return txt
+
+
+# ---------------------------------------------------------------------------------------------- R16.h
+# What the application stored is what the client gets back: SecureCookie.save_cookie() writes the cookie when
+# ``self.should_save`` -- in the dependency: ``self.modified``, which every mutating dict method sets.  A subclass that
+# narrows that decision ("modified AND different from what the client already holds") has to compare against something
+# the application cannot reach: a snapshot that shares its nested values with the live cookie changes along with them
+# (``cart = cookie['cart']; cart.append(x); cookie['cart'] = cart`` leaves cookie == snapshot), the cookie is not re-sent
+# and the next request presents the old contents.
+JUDGED_ELSEWHERE = ('quote', 'unquote', 'unserialize', 'serialization_method', 'hash_method', 'serialize', 'load_cookie', 'save_cookie')
+DICT_PROTOCOL = ('__setitem__', '__delitem__', '__getitem__', '__contains__', '__iter__', '__len__', '__eq__', '__ne__', 'update', 'pop',
+                 'popitem', 'clear', 'setdefault', 'get', 'items', 'keys', 'values', 'copy', 'on_update', 'modified', 'new', 'secret_key')
+DEEP_SNAPSHOTS = ('deepcopy', 'dumps', 'serialize', 'quote', 'repr', 'str', 'hash')
+SHALLOW_COPIERS = ('dict', 'list', 'tuple', 'set', 'frozenset', 'sorted', 'OrderedDict', 'copy', 'items', 'values', 'keys', 'fromkeys', 'ChainMap')
+
+
+def rule_h(rep, cx):
+    ck, repo, dep = cx.ck, cx.repo, cx.dep
+    rep.rule('R16.h', 'a cookie the application modified is written back: should_save is the dependency\'s (= modified) or narrows it only by '
+                      'comparing with an independent (deep) snapshot; the constructor hands data / key / new on unchanged')
+    jc = ck.cls('JSONCookie')
+    mro = [c for c in repo.mro(jc) if isinstance(c, ClassInfo)]
+    own = [c for c in mro if not c.mod.external]
+    ext = [c for c in mro if c.mod.external]
+    if not ext:
+        raise AnalysisError('JSONCookie: the dependency classes it derives from are not resolved')
+    dep_names = set(n for c in ext for n in list(c.methods) + list(c.class_attrs))
+    sc = dep.cls('SecureCookie')
+    used = set(n.attr for m in sc.methods.values() for n in ast.walk(m.node)
+               if isinstance(n, ast.Attribute) and isinstance(n.value, ast.Name) and n.value.id in ('self', 'cls'))
+    # -- should_save
+    owner, node = repo.class_attr(jc, 'should_save')
+    if owner is None:
+        raise AnalysisError('JSONCookie.should_save: not found along the MRO')
+    key = '%s::JSONCookie.should_save' % COOKIE
+    if owner.mod.external:
+        rep.ok('R16.h', key, 'JSONCookie inherits should_save from the dependency (true whenever the cookie was modified)', ck, jc.node)
+    else:
+        fn = owner.methods.get('should_save')
+        if fn is None:
+            v = cx.fold(node) if isinstance(node, ast.expr) else _NOFOLD
+            if v is True:
+                rep.ok('R16.h', key, 'should_save is constantly true: the cookie is always written', owner.mod, owner.node)
+            else:
+                raise AnalysisError('%s.should_save is bound to %s, which is not followed' % (owner.name, short(node, 40) if node is not None else '?'))
+        else:
+            if [norm(d) for d in fn.node.decorator_list] != ['property']:
+                raise AnalysisError('%s.should_save: decorators %s are not followed' % (owner.name, [norm(d) for d in fn.node.decorator_list]))
+            rets = returns_of(fn)
+            if not rets or cfg_of(fn).exit in cfg_of(fn).reach([cfg_of(fn).entry], avoid=set(cfg_of(fn).nodes_of_all(rets)), normal_only=True):
+                rep.fail('R16.h', key, 'should_save can end without a value (None is false): a modified cookie is not written back', owner.mod, fn.node)
+            bad = []
+            for r in rets:
+                if has_cond(conds(fn, r), _is_modified, False):
+                    continue        # reached only for a cookie that was not modified
+                for why, at in _narrowings(cx, own, fn, r.value if r.value is not None else ast.Constant(value=None), 0):
+                    bad.append((why, at))
+            for why, at in bad:
+                rep.fail('R16.h', key, why, owner.mod, at)
+            if not bad:
+                rep.ok('R16.h', key, 'should_save is true whenever the cookie was modified and its contents differ from an independent snapshot',
+                       owner.mod, fn.node)
+    # -- the constructor
+    owner, node = repo.class_attr(jc, '__init__')
+    key = '%s::JSONCookie.__init__' % COOKIE
+    if owner is None:
+        raise AnalysisError('JSONCookie.__init__: not found along the MRO')
+    if owner.mod.external:
+        rep.ok('R16.h', key, 'JSONCookie is constructed by the dependency\'s __init__(data, secret_key, new)', ck, jc.node)
+    else:
+        _constructor(rep, cx, key, owner, owner.methods['__init__'], dep_names)
+    # -- anything else of the dependency's machinery the class (or a mixin of it) replaces
+    for c in own:
+        for nm in sorted(set(list(c.methods) + list(c.class_attrs))):
+            if nm in dep_names and nm not in JUDGED_ELSEWHERE + ('should_save', '__init__') and (nm in used or nm in DICT_PROTOCOL):
+                raise AnalysisError('%s overrides %s of the dependency, which its load / save path uses: the override is not followed' % (c.name, nm))
+
+
+def _narrowings(cx, own, fn, e, depth):
+    """[(why the value can be false for a modified cookie, node)] for the value expression of should_save."""
+    if depth > 6:
+        raise AnalysisError('should_save: expression too deep')
+    e = _follow(fn, e)
+    if isinstance(e, ast.Constant):
+        return [] if e.value is True else [('should_save is constantly %r: a modified cookie is never written back' % (e.value,), e)]
+    if _is_modified(e):
+        return []
+    if isinstance(e, ast.BoolOp) and isinstance(e.op, ast.Or):
+        if any(_is_modified(_follow(fn, v)) or (isinstance(v, ast.Constant) and v.value is True) for v in e.values):
+            return []
+        raise AnalysisError('should_save: %s is not followed' % short(e, 60))
+    if isinstance(e, ast.BoolOp) and isinstance(e.op, ast.And):
+        out = []
+        for v in e.values:
+            out += _narrowings(cx, own, fn, v, depth + 1)
+        return out
+    snap = _snapshot_compare(fn, e)
+    if snap is None:
+        raise AnalysisError('should_save: the condition %s is not followed' % short(e, 60))
+    stores = []
+    for c in own:
+        for m in c.methods.values():
+            for st in stmts_of(m.node):
+                if isinstance(st, (ast.Assign, ast.AnnAssign)) and st.value is not None:
+                    for t in (st.targets if isinstance(st, ast.Assign) else [st.target]):
+                        if isinstance(t, ast.Attribute) and norm(t.value) == 'self' and t.attr == snap:
+                            stores.append((m, st))
+    if not stores:
+        raise AnalysisError('should_save compares with self.%s, which no method of the class binds' % snap)
+    out = []
+    for m, st in stores:
+        kind = _snapshot_kind(cx, m, st.value, 0)
+        if kind == 'shallow':
+            out.append(('should_save is narrowed to "modified and different from self.%s", but %s binds self.%s = %s -- %s: the nested values '
+                        '(lists, dicts) of the snapshot ARE the objects the endpoint gets from the cookie, so the usual '
+                        '"v = cookie[k]; v.append(x); cookie[k] = v" changes the snapshot too, cookie == snapshot, no Set-Cookie is sent and the '
+                        'next request presents the old contents instead of what the application stored'
+                        % (snap, m.qualname, snap, short(st.value, 40), 'a shallow copy' if not _is_self(st.value) else 'the cookie itself'), st))
+        elif kind is None:
+            raise AnalysisError('should_save compares with self.%s = %s (in %s): whether that snapshot is independent of the live values is not decided'
+                                % (snap, short(st.value, 40), m.qualname))
+    return out
+
+
+def _is_self(e):
+    return isinstance(e, ast.Name) and e.id == 'self'
+
+
+def _is_modified(e):
+    """``self.modified`` / the dependency's own should_save (``super().should_save``)."""
+    if isinstance(e, ast.Attribute) and e.attr == 'modified' and _is_self(e.value):
+        return True
+    return isinstance(e, ast.Attribute) and e.attr == 'should_save' and isinstance(e.value, ast.Call) and call_name(e.value) == 'super'
+
+
+def _snapshot_compare(fn, e):
+    """Attribute name S when ``e`` says "the contents differ from self.S": ``live != self.S`` / ``not live == self.S`` (either
+    order), live being an expression over ``self`` only."""
+    neg = False
+    e = _follow(fn, e)
+    while isinstance(e, ast.UnaryOp) and isinstance(e.op, ast.Not):
+        e, neg = _follow(fn, e.operand), not neg
+    if not (isinstance(e, ast.Compare) and len(e.ops) == 1):
+        return None
+    differs = (isinstance(e.ops[0], ast.NotEq) and not neg) or (isinstance(e.ops[0], ast.Eq) and neg)
+    if not differs:
+        return None
+    a, b = _follow(fn, e.left), _follow(fn, e.comparators[0])
+    for live, snap in ((a, b), (b, a)):
+        if isinstance(snap, ast.Attribute) and _is_self(snap.value) and not (isinstance(live, ast.Attribute) and _is_self(live.value)) \
+                and set(n.id for n in ast.walk(live) if isinstance(n, ast.Name)) - set(SHALLOW_COPIERS) - set(DEEP_SNAPSHOTS) <= {'self', 'json', 'copy'}:
+            return snap.attr
+    return None
+
+
+def _snapshot_kind(cx, m, v, depth):
+    """'deep' (shares no mutable object with the cookie: deepcopy, a serialised form, a constant), 'shallow' (the cookie itself, or a
+    new container holding the cookie's own values), None (not decided)."""
+    v = _follow(m, v)
+    if isinstance(v, ast.Constant):
+        return 'deep'
+    names = set(n.id for n in ast.walk(v) if isinstance(n, ast.Name))
+    live = names & (set(_all_params(m.node)) | {'self'})
+    if isinstance(v, ast.Call):
+        tail = call_tail(v)
+        if tail in DEEP_SNAPSHOTS:
+            return 'deep'
+        if tail in SHALLOW_COPIERS and live:
+            return 'shallow'
+        return None
+    if isinstance(v, (ast.Dict, ast.List, ast.Tuple, ast.Set, ast.DictComp, ast.ListComp, ast.SetComp)):
+        if not live:
+            return 'deep' if not names else None
+        inner = [x for x in ast.walk(v) if isinstance(x, ast.Call) and call_tail(x) in DEEP_SNAPSHOTS]
+        return 'shallow' if not inner else None
+    if isinstance(v, ast.Name) and v.id in live:
+        return 'shallow'
+    if isinstance(v, ast.BoolOp) and depth < 4:
+        ks = [_snapshot_kind(cx, m, x, depth + 1) for x in v.values]
+        return 'shallow' if 'shallow' in ks else None if None in ks else 'deep'
+    return None
+
+
+def _constructor(rep, cx, key, owner, fi, dep_names):
+    """A constructor of the cookie class written in the analysed tree: the dependency builds cookies as cls(items, secret_key, False) /
+    cls(secret_key=..): data, key and the new-flag must reach the dependency's __init__ as given, on every path, and the constructor
+    itself puts nothing into the cookie."""
+    from ..effects import effects_in
+    mod = fi.mod
+    a = fi.node.args
+    sups = [c for c in walk_body(fi.node) if isinstance(c, ast.Call) and call_tail(c) == '__init__' and isinstance(c.func, ast.Attribute)]
+    if len(sups) != 1:
+        raise AnalysisError('%s.__init__: %d calls of a base __init__' % (owner.name, len(sups)))
+    c = sups[0]
+    unbound = not (isinstance(c.func.value, ast.Call) and call_name(c.func.value) == 'super')
+    through = a.vararg is not None and a.kwarg is not None and len(a.args) == 1 and \
+        [norm(x) for x in c.args[1 if unbound else 0:]] == ['*' + a.vararg.arg] and [(k.arg, norm(k.value)) for k in c.keywords] == [(None, a.kwarg.arg)]
+    if through:
+        fwd_ok, why = True, 'every argument is passed through (*args, **kwargs)'
+    else:
+        if any(isinstance(x, ast.Starred) for x in c.args) or any(k.arg is None for k in c.keywords) or a.vararg or a.kwarg:
+            raise AnalysisError('%s.__init__: the call %s is not followed' % (owner.name, short(c, 60)))
+        ps = fi.params()[1:]
+        off = 1 if unbound else 0
+        got = dict((nm, argn(c, nm, i + off)) for i, nm in enumerate(('data', 'secret_key', 'new')))
+        wrong = [nm for nm in ('data', 'secret_key', 'new') if nm not in ps or got[nm] is None or norm(got[nm]) != nm or assigned_value(fi.node, nm)]
+        fwd_ok = not wrong and ps[:3] == ['data', 'secret_key', 'new']
+        why = 'data, secret_key and new are handed to the dependency\'s constructor as received' if fwd_ok else \
+            'the constructor does not hand %s on unchanged (the dependency builds cookies as cls(items, secret_key, False)): %s' % (', '.join(wrong) or 'its arguments', short(c, 60))
+    cfg = cfg_of(fi)
+    always = cfg.must_pass(cfg.nodes_of(stmt_of(mod, c)), cfg.entry, cfg.exit, normal_only=True)
+    rep.check('R16.h', key, fwd_ok and always, why if not fwd_ok or always else 'the base constructor is not called on every path', mod, c)
+    for ef in effects_in(fi.node):
+        if ef.root != 'self':
+            continue
+        into = (ef.kind == 'mutcall' and _is_self(ef.target)) or (isinstance(ef.target, ast.Subscript) and _is_self(ef.target.value))
+        over = isinstance(ef.target, ast.Attribute) and _is_self(ef.target.value) and ef.target.attr in dep_names and ef.kind != 'mutcall'
+        if into or over:
+            rep.fail('R16.h', key + '::%s' % norm(ef.node), '%s in the constructor %s' % (short(ef.node, 50),
+                     'puts data into every cookie that the application did not store' if into else
+                     'replaces %s, which the dependency\'s load / save path uses' % ef.target.attr), mod, ef.node)
